@@ -210,6 +210,14 @@ def normalise (sec : Int) (r : Range) : Int × Int :=
 
 def record (ts : List Int) : Range := ts.foldl expand none
 
+/-- the range `assemble` ends with (since the repair c9d1f38): the instants the collector recorded during the play, then
+the act starts and the ends of the mood periods, which the audition holds -/
+def resultRange (sec : Int) (collected acts moodEnds : List Int) : Int × Int :=
+  normalise sec (record (collected ++ (acts ++ moodEnds)))
+
+/-- … and before the repair: the collector's instants alone -/
+def resultRangeOld (sec : Int) (collected : List Int) : Int × Int := normalise sec (record collected)
+
 /-- the specification of the `[MinTime, MaxTime]` pair of result.js -/
 def rangeSpec (sec : Int) (ts : List Int) (lo hi : Int) : Bool :=
   ts.all (fun t => lo ≤ t && t ≤ hi) && decide (lo ≤ 0) && decide (lo + sec ≤ hi)
